@@ -183,7 +183,15 @@ func runSession(t testing.TB, tr *tracer, o srvOpts, sc sessScenario, salt int) 
 			if f.Typ != tStatus || f.Code == 0 {
 				t.Fatalf("scenario open should fail: %+v", f)
 			}
-			tr.emit("Op", kv{"op": "openfail", "touchedObj": s.v != nil && s.v.nObjs() != nb})
+			// the context handed to the handler of an open that failed is cancelled once the request is answered
+			ctxnow := true
+			if s.v != nil {
+				s.v.mu.Lock()
+				lc := s.v.lastCtx
+				s.v.mu.Unlock()
+				ctxnow = ctxDoneSoon(lc)
+			}
+			tr.emit("Op", kv{"op": "openfail", "touchedObj": s.v != nil && s.v.nObjs() != nb, "ctxnow": ctxnow})
 		case "use", "close":
 			hi, known := model[op.H]
 			if !known {
@@ -197,13 +205,15 @@ func runSession(t testing.TB, tr *tracer, o srvOpts, sc sessScenario, salt int) 
 			var f wframe
 			if op.Op == "close" {
 				f, _ = s.call(fClose(id, hi.str))
-				objfail := false
+				objfail, ctxnow := false, true
 				if s.v != nil {
 					if ob := s.v.objByTag(hid(hi.str)); ob != nil {
 						objfail = ob.closeFails()
+						// the context handed to the open / directory-open handler is cancelled once its handle is closed
+						ctxnow = ctxDoneSoon(ob.ctx)
 					}
 				}
-				tr.emit("Op", kv{"op": "close", "h": hid(hi.str), "ok": f.Typ == tStatus && f.Code == 0, "code": int(f.Code), "objfail": objfail})
+				tr.emit("Op", kv{"op": "close", "h": hid(hi.str), "ok": f.Typ == tStatus && f.Code == 0, "code": int(f.Code), "objfail": objfail, "ctxnow": ctxnow})
 				continue
 			}
 			variant := (salt + i) % 3
